@@ -73,6 +73,11 @@ static std::string Gq(const std::string &x, size_t n)
 }
 static void cap_start() { hashlog.clear(); hashlog.log = true; coins.take(); coins.log = true; }
 static size_t last_gqueries = 0;
+// Extra queries (input, osize) / h inputs appended to the next cap_olog: the answers a run of the ORIGINAL specification
+// would need, whether or not the library asked them — so a library that skips a step (e.g. a root in decrypt)
+// cannot hide behind an incomplete log: the model then finds its query answered and disagrees.
+static std::vector<std::pair<std::string, size_t> > extra_g;
+static std::vector<std::string> extra_h;
 static std::string cap_olog(const std::function<size_t(const std::string&)> &gsize, const std::string *hdata)
 {
 	hashlog.log = false;
@@ -87,6 +92,9 @@ static std::string cap_olog(const std::function<size_t(const std::string&)> &gsi
 	for (auto &x : gq) {
 		size_t n = gsize(x); std::string k = "g:" + std::to_string(n) + ":" + okey(x);
 		if (seen.insert(k).second) add(k + ":" + hexs(Gq(x, n))); }
+	for (auto &x : extra_h) { std::string k = "h:" + okey(x); if (seen.insert(k).second) add(k + ":" + hexs(Hq(x))); }
+	for (auto &x : extra_g) { std::string k = "g:" + std::to_string(x.second) + ":" + okey(x.first); if (seen.insert(k).second) add(k + ":" + hexs(Gq(x.first, x.second))); }
+	extra_g.clear(); extra_h.clear();
 	return s + "]";
 }
 static std::string b2s(bool b) { return b ? "1" : "0"; }
@@ -198,6 +206,47 @@ static void resign(TMCG_SecretKey &sk)
 	sk.sig.replace(sk.sig.find(repl.str()), (repl.str()).length() + TMCG_KEYID_SIZE, sk.keyid());
 }
 
+// value field of "xxx|kid|value|…" as GMP reads it (false: fewer than three bars or no number)
+static bool frame_value(const std::string &t, mpz_ptr v)
+{
+	size_t a = t.find('|'); if (a == t.npos) return false;
+	size_t b = t.find('|', a + 1); if (b == t.npos) return false;
+	size_t c = t.find('|', b + 1); if (c == t.npos) return false;
+	return mpz_set_str(v, t.substr(b + 1, c - b - 1).c_str(), TMCG_MPZ_IO_BASE) >= 0;
+}
+static std::string be_bytes(mpz_srcptr x, size_t n)
+{
+	std::string out(n, 0); size_t cnt = 0; std::vector<unsigned char> tmp(n + 16, 0);
+	mpz_export(tmp.data(), &cnt, 1, 1, 1, 0, x);
+	if (cnt <= n) memcpy(&out[n - cnt], tmp.data(), cnt);
+	return out;
+}
+// the queries PRab verification (original specification) makes for signature text `sig` on `data` under modulus m
+static void spec_queries_verify(mpz_srcptr m, const std::string &data, const std::string &sig)
+{
+	Z v, foo; if (!mpz_sgn(m) || !frame_value(sig, v)) return;
+	size_t L = mpz_sizeinbase(m, 2), mn = L / 8;
+	if (L <= mn * 8 || mn <= MD + K0) return;
+	mpz_mul(foo, v, v); mpz_mod(foo, foo, m);
+	if (!mpz_sgn(foo) || mpz_sizeinbase(foo, 2) > 8 * mn) return;
+	std::string yy = be_bytes(foo, mn), w = yy.substr(0, MD), g12 = Gq(w, mn - MD), r = yy.substr(MD, K0);
+	for (size_t i = 0; i < K0; i++) r[i] ^= g12[i];
+	extra_g.push_back(std::make_pair(w, mn - MD));
+	extra_h.push_back(data + r);
+}
+// the queries SAEP decryption (original specification) makes: g on the seed part of EVERY root that fits rabin_s octets
+static void spec_queries_decrypt(const TMCG_SecretKey &sk, const std::string &text)
+{
+	Z cv; if (!enc_ok(sk.m) || !frame_value(text, cv)) return;
+	if (!tmcg_mpz_qrmn_p(cv, sk.p, sk.q)) return;
+	size_t rs = mpz_sizeinbase(sk.m, 2) / 8;
+	Z r[4]; tmcg_mpz_sqrtmn_fast_all(r[0], r[1], r[2], r[3], cv, sk.p, sk.q, sk.m, sk.gcdext_up, sk.gcdext_vq, sk.pa1d4, sk.qa1d4);
+	for (int i = 0; i < 4; i++) {
+		if (!mpz_sgn(r[i]) || mpz_sizeinbase(r[i], 2) > 8 * rs) continue;
+		extra_g.push_back(std::make_pair(be_bytes(r[i], rs).substr(2 * S0), 2 * S0));
+	}
+}
+
 static std::string do_sign(const TMCG_SecretKey &sk, const std::string &data, const std::string &tag)
 {
 	size_t mn = mnsize_of(sk.m);
@@ -215,6 +264,7 @@ static bool do_verify(TMCG_PublicKey &pk, const std::string &data, const std::st
 	cap_start();
 	bool ok = pk.verify(data, sig);
 	coins.take();
+	hashlog.log = false; spec_queries_verify(pk.m, data, sig);
 	std::string ol = cap_olog([&](const std::string &) { return mn > MD ? mn - MD : 0; }, &data);
 	emit("rabin.verify " + zs(pk.m) + " " + hexs(pk.sig) + " " + hexs(data) + " " + hexs(sig) + " " + ol + " " + tag + " => " + b2s(ok));
 	// model-independent record for the Python predicate of C10: class of the case and the library's verdict
@@ -238,6 +288,7 @@ static std::string do_decrypt(const TMCG_SecretKey &sk, const std::string &text,
 	cap_start();
 	bool ok = sk.decrypt(out, text);
 	coins.take();
+	hashlog.log = false; spec_queries_decrypt(sk, text);
 	std::string ol = cap_olog([&](const std::string &) { return 2 * S0; }, NULL);
 	std::string res = ok ? hexs(out, S0) : "reject";
 	emit("rabin.decrypt " + zs(sk.m) + " " + zs(sk.p) + " " + zs(sk.q) + " " + hexs(sk.sig) + " " + hexs(text) + " " + ol + " " + tag + " => " + res);
@@ -255,6 +306,7 @@ static std::string do_check(const std::string &text, const std::string &tag)
 	cap_start();
 	bool ok = pk.check();
 	coins.take();
+	hashlog.log = false; spec_queries_verify(pk.m, data, pk.sig);   // the self-signature part; the NIZK chain is the library's own
 	std::string ol = cap_olog([&](const std::string &x) { return (x.size() == MD) ? (mn > MD ? mn - MD : 0) : mn; }, &data);
 	emit("rabin.check " + hexs(text) + " " + std::to_string(pp) + " " + std::to_string(last_gqueries + 4) + " " + ol + " " + tag + " => " + b2s(ok));
 	emit("prop.rabin check nizk=" + b2s(pk.type.find("NIZK") != pk.type.npos) + " " + tag + " => " + b2s(ok));
